@@ -228,6 +228,7 @@ func splitPath(p string) []string {
 
 // case file of the block-level path walk (Corr/PathLoads.v); nil in replays
 var cfPathLoads *CaseFile
+var ploadBudget int // how many more block-level path cases may be emitted (250 ms each in the model)
 
 func runPathSelInput(rep *Report, in PathSelInput, cf *CaseFile) {
 	fail := func(prop, sig, what string, exp, got interface{}) {
@@ -244,6 +245,13 @@ func runPathSelInput(rep *Report, in PathSelInput, cf *CaseFile) {
 	if o.Class != "ok" {
 		fail("C03", "builder-panic", "the selector builder panicked", nil, o.Class)
 		return
+	}
+	if in.Target == 0 && !in.MatchPath {
+		var short datamodel.Node
+		so := guard(func() error { short = unixfsnode.UnixFSPathSelector(in.Path); return nil })
+		if so.Class != "ok" || !datamodel.DeepEqual(short, selNode) {
+			fail("C03", "pathselector-shorthand", "UnixFSPathSelector(path) is not UnixFSPathSelectorBuilder(path, MatchUnixFSSelector, false)", nil, so.Class)
+		}
 	}
 	sel, err := selector.CompileSelector(selNode)
 	if err != nil {
@@ -334,7 +342,7 @@ func runPathSelInput(rep *Report, in PathSelInput, cf *CaseFile) {
 		fail("C03", "walk-panic", "the traversal panicked", nil, "panic")
 		return
 	}
-	if cfPathLoads != nil && (in.Target == 0 || in.Target == 1) && !in.MatchPath && wo.Class != "panic" {
+	if cfPathLoads != nil && ploadBudget > 0 && (in.Target == 0 || in.Target == 1) && !in.MatchPath && wo.Class != "panic" {
 		// the traversal's own storage requests (up to the match), against the block-level walk of the model
 		dag := dumpDAG(bt.st, bt.cids[in.Tree.ID], map[string]*DNode{})
 		var order []*DNode
@@ -357,6 +365,7 @@ func runPathSelInput(rep *Report, in PathSelInput, cf *CaseFile) {
 			for _, sg := range splitPath(in.Path) {
 				hs = append(hs, fmt.Sprintf("(%s, %s)", coqBytes([]byte(sg)), coqBytes(mhash(sg))))
 			}
+			ploadBudget--
 			cfPathLoads.Add(fmt.Sprintf("mk_pload %s %s %s %s %s", coqBlk(dag), coqBytes([]byte(in.Path)), coqList(hs), coqBool(in.Target == 1), coqNList(idx)), in)
 		}
 	}
@@ -452,6 +461,47 @@ func runPathSelInput(rep *Report, in PathSelInput, cf *CaseFile) {
 					pos = idx
 				}
 			}
+			if in.Target == 2 && want != nil && wo.Class == "ok" {
+				// entity selector, consumed with the exported BytesConsumingMatcher: every block of the matched file / every
+				// shard of the matched directory is requested, nothing outside the path and the entity (C06)
+				bt.st.ResetLog()
+				eo := guard(func() error {
+					return prog.WalkMatching(root, sel, func(p traversal.Progress, n datamodel.Node) error {
+						return unixfsnode.BytesConsumingMatcher(p, n)
+					})
+				})
+				if eo.Class == "panic" {
+					fail("C13", "entity-panic", "the entity traversal with BytesConsumingMatcher panicked", nil, "panic")
+				} else if eo.Class == "ok" {
+					reqs := map[string]bool{}
+					for _, c := range bt.st.Reads {
+						reqs[c.KeyString()] = true
+					}
+					for k := range bt.own[want.ID] {
+						if !reqs[k] && k != bt.cids[want.ID].KeyString() {
+							fail("C06", "entity-selector-incomplete", "the entity selector with BytesConsumingMatcher did not request every block of the matched entity", nil, k)
+							break
+						}
+					}
+					allowed := map[string]bool{}
+					cur := in.Tree
+					for k := range bt.own[cur.ID] {
+						allowed[k] = true
+					}
+					for _, sg := range segs {
+						cur = findPath(cur, []string{sg})
+						for k := range bt.own[cur.ID] {
+							allowed[k] = true
+						}
+					}
+					for _, c := range bt.st.Reads {
+						if !allowed[c.KeyString()] {
+							fail("C06", "entity-selector-extra", "the entity selector requested a block that is neither on the path nor part of the matched entity", nil, c.String())
+							break
+						}
+					}
+				}
+			}
 			if (in.Target == 1 || in.Target == 2) && want != nil && wo.Class == "ok" && in.Target == 1 {
 				// preload target: every block of the target entity is requested, none of its entries'
 				reqs := map[string]bool{}
@@ -513,6 +563,7 @@ func scnPathSel(rep *Report, rng *Rng, tier string, outdir string) {
 	cf := NewCaseFile(rep, outdir, "cases_pathsel", "UV.Corr.PathSel", "mismatches_pathsel", 100)
 	cfPathLoads = NewCaseFile(rep, outdir, "cases_pload", "UV.Corr.PathLoads", "mismatches_pload", 40)
 	defer func() { cfPathLoads.Flush(); cfPathLoads = nil }()
+	ploadBudget = 4000
 	rule := "random trees (depth <= 3; multi-block files; plain and sharded directories with fanout 8/16/256; names with spaces, unicode, %XX escapes, '.', '..') x every path of the tree + perturbed paths (extra / leading / trailing slashes, truncated and extended names, percent-encoded variants, suffixes of real names) x 4 targets x matchPath; real traversal.WalkMatching with the registered reifiers; the built selector is read back and compared with the Coq builder, the SelectionMatch visits with the Coq walk; matched files must carry their exact bytes, matched directories their exact entry names; distinct = distinct (tree, path, target, matchPath); non-trivial = path with at least 1 segment"
 	for _, p := range []string{"C03", "C05", "C06", "C20"} {
 		rep.P(p).Rule = rule
